@@ -39,7 +39,7 @@ def _from_bom_len(body, l, depth=0):
             d2 = body.defs.get(pl['l'], [])
             if len(d2) == 1 and d2[0][2] == 'call':
                 c = callee_of(d2[0][3])
-                return bool(c and c['path'] == FROM_BOM)
+                return bool(c and body.facts.ref_path(c['path']) == FROM_BOM)
     return False
 
 
@@ -132,7 +132,7 @@ def run(facts, out, bodies=None):
                             changed = True
         for bb, t in b.calls():
             c = callee_of(t)
-            if c and c['path'] == FROM_BOM:
+            if c and facts.ref_path(c['path']) == FROM_BOM:
                 l0 = op_local(t['args'][0])
                 bad = l0 in tainted
                 out.add('IC', b.path, 'bom-source', loc_of(t['sp']), not bad,
@@ -183,6 +183,22 @@ def run(facts, out, bodies=None):
     if fixture:
         return
     out.anchor('IC', 'reader fill calls on the decode path', n_fill >= 1, '%d' % n_fill)
+    # PV: the line reader and the driver helpers are not reachable from outside the crate, so every
+    # decoder goes through DecodeBeatmap::decode
+    for fnp in ('decode::parse_section', 'decode::parse_first_section', 'decode::parse_version'):
+        fn = facts.fns.get(facts.resolve(fnp) or fnp)
+        out.anchor('IC', 'driver helper ' + fnp, fn is not None)
+        if fn is not None:
+            okp = not fn.get('reachable', fn['pub'])
+            out.add('IC', fn['path'], 'unreachable-from-outside', loc_of(fn['sp']), okp,
+                    '' if okp else 'driver helper is reachable from outside the crate (a second driver becomes possible)',
+                    ordinal=False)
+            for t in fn['inputs']:
+                a = facts.adts.get(t.get('to_adt') or '')
+                if a is not None and a['path'].startswith('reader::'):
+                    okr = not a.get('reachable', a['pub'])
+                    out.add('IC', a['path'], 'reader-type-unreachable', loc_of(a['sp']), okr,
+                            '' if okr else 'the line reader type is reachable from outside the crate', ordinal=False)
     # entry points are thin wrappers
     for name in ('decode::from_bytes', 'decode::from_str', 'decode::from_path'):
         b = facts.body(name)
